@@ -101,8 +101,10 @@ Definition color_spec (c : rgba) (form : cform) (upper : bool) : list N :=
 (* xterm ctlseqs, "PC-Style Function Keys" and "VT220-Style Function Keys": cursor keys CSI A..D,
    Home / End CSI H / F, F1..F4 SS3 P..S, the `~` keys CSI n ~ (1 Home, 2 Insert, 3 Delete, 4 End,
    5 PageUp, 6 PageDown, 11..15 F1..F5, 17..21 F6..F10, 23 24 F11 F12); a modified key inserts the
-   parameter 1 + mask (shift 1, alt 2, ctrl 4): CSI 1 ; m X and CSI n ; m ~.  Alt sends ESC before
-   the character, Ctrl+letter sends the letter's control code, DEL is backspace. *)
+   parameter 1 + mask: CSI 1 ; m X and CSI n ; m ~.  The mask is xterm's shift 1, alt 2, ctrl 4,
+   meta 8 (parameters 2..16) and, in the same forms, the kitty protocol's 8-bit mask (super 8,
+   hyper 16, meta 32, caps_lock 64, num_lock 128): every mask below 256 is a legitimate report.
+   Alt sends ESC before the character, Ctrl+letter sends the letter's control code, DEL is backspace. *)
 Definition final_byte (k : kname) : option N :=
   match k with
   | KUp => Some 65 | KDown => Some 66 | KRight => Some 67 | KLeft => Some 68 | KEnd => Some 70 | KHome => Some 72
@@ -122,7 +124,7 @@ Definition tilde_code (k : kname) (alt_form : bool) : option N :=
   end.
 (* `alt_form`: the VT220-style `~` encoding of Home / End / F1..F4 instead of the final-byte one *)
 Definition xterm_seq (k : kname) (mods : N) (alt_form : bool) : option (list N) :=
-  if 8 <=? mods then None
+  if 256 <=? mods then None
   else
     match k with
     | KBackspace => if mods =? 0 then Some [127] else None
@@ -244,13 +246,23 @@ Definition kitty_char_ok (c : N) : bool :=
   scalar_ok c && negb ((c =? 27) || (c =? 13) || (c =? 9) || (c =? 127))
   && negb ((57344 <=? c) && (c <=? 63743)).
 
+(* ECMA-48 / ISO 2022: ESC alone and the 7-bit introducers ESC O (SS3), ESC P (DCS), ESC [ (CSI),
+   ESC ] (OSC), ESC _ (APC) are prefixes of longer control sequences; as key reports (Esc, Alt+O ..)
+   they are inherently ambiguous when more input follows and are resolved by timing, not by the
+   decoder: not self-delimiting *)
+Definition bare_prefix (w : list N) : bool :=
+  match w with
+  | [27] | [27; 79] | [27; 80] | [27; 91] | [27; 93] | [27; 95] => true
+  | _ => false
+  end.
+
 Section Wf.
   Variable decmode_all : list N.              (* the DEC private mode codes the library names *)
   Variable lit_table : list (list N * (kname * N)).   (* the literal key table *)
 
   Definition wf (r : report) : bool :=
     match r with
-    | RLit w => match lit_lookup lit_table w with Some _ => true | None => false end
+    | RLit w => match lit_lookup lit_table w with Some _ => negb (bare_prefix w) | None => false end
     | RXterm k mods alt_form => match xterm_seq k mods alt_form with Some _ => true | None => false end
     | RChar c => printable c
     | RKittyKey k mods =>
